@@ -150,6 +150,11 @@ func (s *Set) getSiblingTemplate(templatePath, siblingPath string, cacheAfterPar
 // same as GetTemplate, but doesn't cache a template when found through the loader.
 func (s *Set) getTemplate(templatePath string, cacheAfterParsing bool) (t *Template, err error) {
 	if !s.developmentMode {
+		if t := s.cache.Get(templatePath); t != nil {
+			// what an earlier lookup of this very name stored below: it must win over entries other names
+			// left under templatePath+extension, and be found when "" is not among the extensions
+			return t, nil
+		}
 		t, found := s.getTemplateFromCache(templatePath)
 		if found {
 			return t, nil
